@@ -110,6 +110,12 @@ func RunOne(t *testing.T, mk func() World, tape *Tape, lim Limits, keepLog bool)
 		res.Trace = s.logLines
 	}
 	res.Tape = append([]uint32(nil), tape.Used...)
+	if len(res.Violations) > 0 && strings.HasPrefix(res.Harness, "end-of-bubble deadlock") {
+		// goroutines of the code under test that never end (a hang the oracles have already
+		// reported, e.g. no return after cancel) keep the bubble from finishing: the violation
+		// is the verdict, the deadlock its consequence
+		res.Harness = ""
+	}
 	return res
 }
 
